@@ -21,7 +21,7 @@ import tools.legalfloor.expression_tree as ET
 import tools.legalfloor.model as MD
 
 PID = 'C19'
-FUNCTIONS = ['Die.write_yaml', 'Die.__init__', 'Die.split_refinable_regions', 'Allocation.write_yaml', 'Allocation.__init__',
+FUNCTIONS = ['Netlist.write_yaml / dump_yaml_modules / dump_yaml_edges (as C04)', 'Die.write_yaml', 'Die.__init__', 'Die.split_refinable_regions', 'Allocation.write_yaml', 'Allocation.__init__',
              'Allocation.refine/griddify', 'netgen.gen_grid/gen_chain/gen_ring/gen_star/gen_ring_star/gen_one_net/gen_htree/gen_modules',
              'dump_yaml_namededges', 'rect_io.solution_to_netlist', 'rect_io.get_netlist', 'legalfloor.Model.get_netlist',
              'netlist_to_utils', 'Netlist.__init__']
@@ -77,6 +77,8 @@ def cases(tier):
             for centers in (0, 1):
                 cs.append(dict(kind='netgen', topo='grid', n=r, m=c, centers=centers))
     cs.append(dict(kind='namededges'))
+    for st in NC.structs(tier):   # Netlist.write_yaml is the writer the legalisation and placement stages use for their output files
+        cs.append(dict(kind='netlist', struct=st))
     for s in NC.STRUCTS['quick'][:5]:
         cs.append(dict(kind='rect-solution', struct=s))
     cs.append(dict(kind='rect-getnetlist', template='row2', n=2, maps=[1, 2], depths=[0, 0], transposed=0))
@@ -92,6 +94,11 @@ BANDS = {'full': (0, 4), 'lower': (0, 1), 'upper': (3, 4)}
 
 def body(I, case):
     return globals()['body_' + case['kind'].replace('-', '_')](I, case)
+
+
+def body_netlist(I, case):
+    from fv.props import c04
+    return c04.body(I, case)
 
 
 # ------------------------------------------------------------------------------------------ dies
